@@ -1,6 +1,7 @@
 \* exhaustive, the section scenarios (every state-diff section in isolation), the code as it is: a setup block
 \* + <= 2 blocks of 3 variants (S for target 1 / S for target 2 / empty diff), <= 1 revert; the state methods
 \* and getStateUpdate by every number, every hash ever stored and latest
+\* measured: 820 distinct states, 115 520 transitions, depth 6, ~15 s on 4 workers (10 initial states: one per scenario)
 CONSTANTS
   MaxLen = 3
   MaxReverts = 1
